@@ -337,7 +337,7 @@ class OverlapManager:
         completed = []
         todo = []
         for job in jobs:
-            if os.path.isfile(job.output_filepath):
+            if self._is_current(job):
                 self._logger.debug(
                     "skipping '%s', output exists '%s'",
                     job.gene_uid,
@@ -347,6 +347,21 @@ class OverlapManager:
             else:
                 todo.append(job)
         return completed, todo
+
+    @staticmethod
+    def _is_current(job):
+        """True if the output of the job exists and is newer than both its inputs.
+
+        An overlap file older than the GeneData or TransposonData file it would be
+        computed from (e.g. after the caches were refreshed) does not describe them.
+        """
+
+        if not os.path.isfile(job.output_filepath):
+            return False
+        output_time = os.path.getmtime(job.output_filepath)
+        return output_time > os.path.getmtime(
+            job.gene_path
+        ) and output_time > os.path.getmtime(job.te_path)
 
     def _overlap_filepath(self, gene_data):
         """Filename for the overlap temporary file."""
